@@ -27,7 +27,7 @@ from typing import Any, Callable, Dict, Iterable, List, Optional
 import hypothesis
 from hypothesis import HealthCheck, Phase, given, seed as hyp_seed, settings
 from hypothesis import strategies as st
-from hypothesis.errors import FailedHealthCheck, Unsatisfiable
+from hypothesis.errors import FailedHealthCheck, Flaky, Unsatisfiable
 
 
 class Violation(Exception):
@@ -269,6 +269,13 @@ def run_clause_generated(prop_id, clause: Clause, n: int, seed: int, shrink: boo
         test()
     except Violation:
         res.violation = dict(last_fail)
+    except Flaky:
+        # the code under test is not deterministic on this case (e.g. uninitialised memory):
+        # a violation was observed at least once, so it is reported, flagged as flaky
+        if not last_fail:
+            raise
+        res.violation = dict(last_fail)
+        res.violation["message"] = "[non-deterministic across repeated runs of the same case] " + last_fail["message"]
     except (FailedHealthCheck, Unsatisfiable) as e:
         raise HarnessError("clause %s: generator health check failed: %s" % (clause.name, e))
     res.wall_s = time.time() - t0
@@ -314,7 +321,8 @@ def write_replay(prop_id, clause_name, violation, seed, tier):
     d = os.path.join(VERIF_DIR, "replays", prop_id)
     os.makedirs(d, exist_ok=True)
     key = case_key(violation["case"])
-    path = os.path.join(d, "%s__%s.json" % (clause_name.replace(":", "_"), key))
+    safe = "".join(ch if ch.isalnum() or ch in "-_" else "_" for ch in clause_name)
+    path = os.path.join(d, "%s__%s.json" % (safe, key))
     with open(path, "w") as f:
         json.dump(
             {
@@ -473,7 +481,7 @@ def run_property(mod, tier: str, argv_opts) -> int:
 
     # ---- generated / enumerated clauses ------------------------------------------
     for clause in clauses:
-        if only and clause.name != only:
+        if (only and clause.name != only) or argv_opts.get("corpus_only"):
             continue
         if clause.strategy is not None:
             if tier == "thorough" and clause.shards > 1:
@@ -545,7 +553,7 @@ def run_property(mod, tier: str, argv_opts) -> int:
         "wall_s": round(time.time() - t0, 2),
         "violations": len(violations),
     }
-    if not only:
+    if not only and not argv_opts.get("corpus_only"):
         os.makedirs(os.path.join(VERIF_DIR, "evidence"), exist_ok=True)
         with open(os.path.join(VERIF_DIR, "evidence", prop_id + ".json"), "w") as f:
             json.dump(evidence, f, indent=1, sort_keys=True, default=_json_default)
@@ -601,6 +609,8 @@ def main(argv):
             opts["out"] = next(it)
         elif a == "--mode":
             opts["mode"] = next(it)
+        elif a == "--corpus-only":
+            opts["corpus_only"] = True
         else:
             print("unknown option", a)
             return 2
